@@ -517,6 +517,40 @@ pub fn run(ctx: &Ctx, rep: &mut Report) {
             }
         }
     }
+    // (iii-e) valid UTF-8 text with a multi-byte character at every offset 0 ..= 300 and around
+    // every power of two up to 65 536, behind nothing, a sentence head, a tag block, a comment sign
+    // or a log time stamp: what the line is (rejected, as a rule) must not depend on where the wide
+    // character sits - error paths that quote the input cut it somewhere
+    {
+        let wide: [&str; 4] = ["\u{e9}", "\u{f8}", "\u{20ac}", "\u{1f600}"];
+        let mut offsets: Vec<usize> = (0..=300).collect();
+        let mut p2 = 512usize;
+        while p2 <= 65_536 {
+            offsets.extend_from_slice(&[p2 - 3, p2 - 2, p2 - 1, p2]);
+            p2 *= 2;
+        }
+        let mut item = 0u64;
+        for off in offsets {
+            if !ctx.mine(item) {
+                item += 1;
+                continue;
+            }
+            item += 1;
+            for w in wide {
+                for head in ["", "!AIVDM,1,1,,A,", "\\c:1\\!AIVDM,", "# ", "2024-05-01T12:00:00Z \\s:"] {
+                    let mut l = String::from(head);
+                    while l.len() < off {
+                        l.push((b'a' + (l.len() % 26) as u8) as char);
+                    }
+                    for _ in 0..r.usize(1, 3) {
+                        l.push_str(w);
+                    }
+                    l.push_str(if off % 2 == 0 { ",0*00 tail" } else { " tail without a star" });
+                    judge(rep, l.as_bytes(), "wide-character-at-offset", "*");
+                }
+            }
+        }
+    }
     // (iv) random bytes
     for _ in 0..ctx.budget(100_000, 1_000_000) {
         let n = r.usize(0, 120);
